@@ -30,6 +30,10 @@ HASH_BOUNDS = {"quick": {"hash_lo": 20, "hash_hi": 64, "hash_step": 22},
 ID_BOUNDS = {"quick": {"seq_digits": 5, "denom_lo": 27, "denom_hi": 30},
              "thorough": {"seq_digits": 20, "denom_lo": 25, "denom_hi": 34}}
 
+# data module: list = content hashes per message, iter = probes of the id table per content
+# hash (collision chains of iter-1 occupied slots)
+DATA_BOUNDS = {"quick": {"list": 2, "iter": 3}, "thorough": {"list": 3, "iter": 4}}
+
 COST_BOUNDS = {"quick": {"ask_digits": 12, "qty_digits": 8, "exp_lo": -8, "exp_hi": 4},
                "thorough": {"ask_digits": 14, "qty_digits": 10, "exp_lo": -8, "exp_hi": 4}}
 
@@ -76,6 +80,10 @@ PROPS = {
     "C15": {"title": "IRI <-> content hash bijection",
             "runs": [{"module": "data", "pkg": ".", "harness": "C15_.*", "bounds": HASH_BOUNDS}],
             "technique": "go/ssa symbolic execution of ToIRI/ParseIRI/Validate on symbolic bytes + SMT; base58check as an explicit injective encoding"},
+    "C16": {"title": "anchors, attestations and registrations are permanent and collision-proof",
+            "runs": [{"module": "data", "pkg": "./server", "harness": "C16_.*", "bounds": DATA_BOUNDS},
+                     {"module": "data", "pkg": "./server/hasher", "harness": "C16_.*", "bounds": {"quick": {"collisions": 300}, "thorough": {"collisions": 20000}}}],
+            "technique": "one-step inductive invariant over the four data messages: go/ssa symbolic execution of the real handlers on model tables with arbitrary pre-state and an uninterpreted ID hash function + SMT; CreateID kernel on an arbitrary digest"},
     "C18": {"title": "fees exact; accepted parameters never disable a feature", "runs": [kernel_cost()] + step_runs(),
             "technique": "go/ssa symbolic execution: accepted(p) and pre(op) => op succeeds, negated and solved with p symbolic; fee charging on the CreateClass / basket Create step harnesses"},
     "C19": {"title": "decimal arithmetic",
